@@ -9,7 +9,7 @@ SPEC = {
                   "cases_over_limit_cycle1": 400, "cases_over_limit_later_cycle": 400,
                   "cases_cumulative_multicycle_overflow": 200, "collects_merged_window": 1500,
                   "collects_with_overflow_series": 1500, "cases_default_limit_2200_sets": 3,
-                  "series_cases_meter": 400, "series_cases_histogram": 200, "records_without_attributes": 5000},
+                  "series_cases_meter": 350, "series_cases_histogram": 200, "records_without_attributes": 5000},
         "thorough": {"permutation_pairs": 400000, "equal_pairs_after_filtered_out_change": 80000, "unequal_pairs": 300000,
                      "cases_over_limit_cycle1": 30000, "cases_over_limit_later_cycle": 30000,
                      "cases_cumulative_multicycle_overflow": 15000, "collects_merged_window": 100000,
